@@ -217,3 +217,40 @@ def printed_values(output):
             except tlaparse.ParseError:
                 pass
     return vals
+
+
+def validate_traces(spec, traces, workdir, constants=None, init='TInit', next_='TNext', report='Report',
+                    timeout=900, name='traces'):
+    """Batch trace validation (code -> spec).  `traces` is a list of event lists; one TLC run (-workers 1)
+    validates them all; returns (set of accepted 0-based indices, {rejected index: longest matched prefix}, result)."""
+    import json
+    os.makedirs(workdir, exist_ok=True)
+    tf = os.path.join(workdir, name + '.json')
+    with open(tf, 'w') as f:
+        json.dump(traces, f)
+    cfg = os.path.join(workdir, name + '.cfg')
+    write_cfg(cfg, constants=constants or {}, init=init, next_=next_, constraint=report)
+    r = run(spec, cfg, workdir=workdir, workers=1, timeout=timeout, env={'TRACE_FILE': tf, 'TRACE_VERBOSE': '0'})
+    if not r.ok:
+        raise TLCError('trace validation run failed (%s):\n%s' % (r.violation, r.output[-3000:]))
+    accepted = set()
+    for v in printed_values(r.output):
+        if len(v) == 2 and v[0] == 'ACCEPT':
+            accepted.add(int(v[1]) - 1)
+    rejected = {}
+    bad = [i for i in range(len(traces)) if i not in accepted]
+    if bad:
+        # localise: re-run the rejected traces verbosely and take the furthest position reached
+        sub = [traces[i] for i in bad[:20]]
+        with open(tf, 'w') as f:
+            json.dump(sub, f)
+        r2 = run(spec, cfg, workdir=workdir, workers=1, timeout=timeout, env={'TRACE_FILE': tf, 'TRACE_VERBOSE': '1'})
+        far = {}
+        for v in printed_values(r2.output):
+            if len(v) == 3 and v[0] == 'AT':
+                far[int(v[1]) - 1] = max(far.get(int(v[1]) - 1, 0), int(v[2]))
+        for j, i in enumerate(bad[:20]):
+            rejected[i] = far.get(j, 1) - 1          # number of events matched
+        for i in bad[20:]:
+            rejected[i] = None
+    return accepted, rejected, r
